@@ -123,7 +123,7 @@ def apply_edit(cfg, edit, objs):
 
 
 _BT = {'Config': fdl.Config, 'Partial': fdl.Partial, 'ArgFactory': fdl.ArgFactory}
-_NT = {'Pair': things.Pair, 'Triple': things.Triple}
+_NT = {'Pair': things.Pair, 'Triple': things.Triple, 'PairSub': things.PairSub, 'GenericNT': things.GenericNT}
 
 
 def build_node(node, objs, notes=None):
